@@ -42,6 +42,12 @@ fn main() {
     run!("records", cat::tls_records(2, false), parse_tls_plaintext, parse_tls_raw_record, parse_tls_encrypted, tls_parser_many);
     run!("handshake", cat::handshake_messages(false), parse_tls_message_handshake);
     run!("extensions", cat::known_extensions(), parse_tls_extension, parse_tls_client_hello_extension, parse_tls_server_hello_extension, parse_tls_extensions, parse_tls_extension_sni, parse_tls_extension_supported_versions);
+    run!("text extensions", cat::text_extensions(), parse_tls_extension, parse_tls_extensions, parse_tls_extension_sni);
+    run!("oid filters", cat::oid_filter_extensions().into_iter().step_by(5).collect(), parse_tls_extension);
+    run!("hellos with extension lists", cat::hellos_with_extension_lists().into_iter().filter(|w| w.lens.first().map_or(false, |l| l.label == "hs_len")).collect(), parse_tls_message_handshake);
+    run!("magic hellos", cat::magic_hellos().into_iter().filter(|w| w.lens.first().map_or(false, |l| l.label == "hs_len")).collect(), parse_tls_message_handshake);
+    run!("many", cat::extension_lists_many().into_iter().take(4).collect(), parse_tls_extensions, parse_tls_client_hello_extensions);
+    run!("foreign", cat::foreign_protocols().into_iter().step_by(9).map(|b| { let mut w = W::new(); w.bytes(&b[..b.len().min(1500)]); w }).collect(), parse_tls_plaintext, parse_tls_raw_record);
     run!("dtls records", cat::dtls_records(), parse_dtls_plaintext_record, parse_dtls_plaintext_records);
     run!("dtls handshake", cat::dtls_handshake_messages(), parse_dtls_message_handshake);
     run!("dh", cat::dh_params(false), parse_dh_params);
